@@ -12,6 +12,7 @@ harness/asm/runner.py and the observed results are judged by TLC
 import json
 import os
 import random
+import time
 from concurrent.futures import ThreadPoolExecutor
 from typing import Dict, List
 
@@ -29,8 +30,8 @@ CONFIGS = {
         "thorough": ["Asm_sym_t.cfg", "Asm_chunk_t.cfg", "Asm_chunk2_t.cfg"],
     },
 }
-SAMPLE = {"C12": {"quick": 6000, "thorough": 100000},
-          "C13": {"quick": 4500, "thorough": 60000}}
+SAMPLE = {"C12": {"quick": 5000, "thorough": 60000},
+          "C13": {"quick": 4000, "thorough": 40000}}
 MC_TIMEOUT = {"quick": 300, "thorough": 1500}
 WORKERS = int(os.environ.get("VERIF_TLC_WORKERS", "16"))
 
@@ -148,10 +149,16 @@ def run(prop: str, tier: str, replay: str = None) -> int:
                     rep.extra["generated_cases"] += res["emitted"]
             sample_cases(allc, cases, SAMPLE[prop][tier], rng, prop, tier)
             os.remove(allc)
+        t1 = time.time()
         shards = core.split_file(cases, 16, wd, "cases")
         traces = core.run_module_parallel("harness.asm.runner", shards, wd, "asm")
+        t2 = time.time()
         verdicts = tlc.validate_sharded("TraceAsm.tla", "TraceAsm.cfg", traces, jobs=16,
                                         timeout=1500)
+        t3 = time.time()
+        rep.extra["phase_wall_s"] = {"model_checking_and_generation": round(t1 - rep.t0, 1),
+                                     "real_assembler_runs": round(t2 - t1, 1),
+                                     "trace_validation": round(t3 - t2, 1)}
         case_by_id = {}
         with open(cases) as f:
             for line in f:
